@@ -31,6 +31,7 @@ import (
 	"github.com/tikv/pd/server/schedule/filter"
 	"github.com/tikv/pd/server/schedule/operator"
 	"github.com/tikv/pd/server/schedule/opt"
+	"github.com/tikv/pd/server/schedule/placement"
 	"go.uber.org/zap"
 )
 
@@ -304,7 +305,7 @@ func (r *RegionScatterer) scatterRegion(region *core.RegionInfo, group string) *
 	// FIXME: target leader only considers the ordinary stores，maybe we need to consider the
 	// special engine stores if the engine supports to become a leader. But now there is only
 	// one engine, tiflash, which does not support the leader, so don't consider it for now.
-	targetLeader := r.selectAvailableLeaderStores(group, targetPeers, r.ordinaryEngine)
+	targetLeader := r.selectAvailableLeaderStores(group, region, targetPeers, r.ordinaryEngine)
 
 	for engine, peers := range specialPeers {
 		ctx, ok := r.specialEngines[engine]
@@ -414,22 +415,49 @@ func (r *RegionScatterer) selectStore(group string, peer *metapb.Peer, sourceSto
 
 // selectAvailableLeaderStores select the target leader store from the candidates. The candidates would be collected by
 // the existed peers store depended on the leader counts in the group level.
-func (r *RegionScatterer) selectAvailableLeaderStores(group string, peers map[uint64]*metapb.Peer, context engineContext) uint64 {
+func (r *RegionScatterer) selectAvailableLeaderStores(group string, region *core.RegionInfo, peers map[uint64]*metapb.Peer, context engineContext) uint64 {
 	leaderCandidateStores := make([]uint64, 0)
-	for storeID := range peers {
+	// The operator is built with EnableForceTargetLeader, which skips the store state filter
+	// of the builder (in order to ignore the leader schedule limit): keep the stores that must
+	// not receive leaders out here - reject-leader label property, leader transfer paused by an
+	// evict-leader scheduler, offline, tombstone, down, disconnected or busy stores.
+	leaderTarget := &filter.StoreStateFilter{ActionScope: r.name, TransferLeader: true}
+	// With placement rules the leader has to be on a store that a leader or voter rule selects
+	// (the same test as the operator builder's allowLeader, which the force flag skips too).
+	var rules []*placement.Rule
+	if r.cluster.GetOpts().IsPlacementRulesEnabled() {
+		for _, rf := range r.cluster.FitRegion(region).RuleFits {
+			rules = append(rules, rf.Rule)
+		}
+	}
+	allowedByRules := func(store *core.StoreInfo) bool {
+		if len(rules) == 0 {
+			return true
+		}
+		for _, rule := range rules {
+			if (rule.Role == placement.Leader || rule.Role == placement.Voter) &&
+				placement.MatchLabelConstraints(store, rule.LabelConstraints) {
+				return true
+			}
+		}
+		return false
+	}
+	for storeID, peer := range peers {
 		store := r.cluster.GetStore(storeID)
 		engine := store.GetLabelValue(filter.EngineKey)
-		// The operator is built with EnableForceTargetLeader, which skips the store state
-		// filter: keep stores that must not hold leaders (reject-leader label property) out here.
-		if len(engine) < 1 && !r.cluster.GetOpts().CheckLabelProperty(opt.RejectLeader, store.GetLabels()) {
+		if len(engine) < 1 && !core.IsLearner(peer) && leaderTarget.Target(r.cluster.GetOpts(), store) && allowedByRules(store) {
 			leaderCandidateStores = append(leaderCandidateStores, storeID)
 		}
 	}
 	minStoreGroupLeader := uint64(math.MaxUint64)
 	id := uint64(0)
 	if len(leaderCandidateStores) == 0 {
-		// every candidate rejects leaders: fall back to all ordinary stores rather than to
-		// the random choice of CreateScatterRegionOperator
+		// no target store accepts leaders: leave the leader where it is if its peer stays
+		if leader := region.GetLeader().GetStoreId(); peers[leader] != nil && !core.IsLearner(peers[leader]) {
+			return leader
+		}
+		// otherwise fall back to all ordinary stores rather than to the random choice of
+		// CreateScatterRegionOperator
 		for storeID := range peers {
 			if len(r.cluster.GetStore(storeID).GetLabelValue(filter.EngineKey)) < 1 {
 				leaderCandidateStores = append(leaderCandidateStores, storeID)
